@@ -1,6 +1,7 @@
 import WebpVerif.Lemmas.EncHuff
 import WebpVerif.Lemmas.EncHuffCodes
 import WebpVerif.Lemmas.EncHuffTree
+import WebpVerif.Lemmas.EncHuffLimit
 
 /-!
 # C14 — encoder prefix codes are complete, length-limited and canonical for any histogram
@@ -87,13 +88,36 @@ theorem full_when_no_limiting (freqs : List Nat) (limit : Nat) (hlim : limit ≤
 example : 2 ≤ ([5, 0, 3, 1, 1].filter (· > 0)).length ∧ ([5, 0, 3, 1, 1].filter (· > 0)).length ≤ 256 ∧
     (treeLengths [5, 0, 3, 1, 1]).foldl max 0 ≤ 15 := by decide
 
-/-- The property at full strength for the model (stated).  Proved: the whole statement whenever
-    no limiting is needed and at most 256 symbols are used (`full_when_no_limiting`); for the
-    limiting case: the limiting move and all of phase 4 (final assert ⇔ Kraft equality, canonical
-    bit-reversed code words); the limiting loop and the reassignment as a whole, and histograms
-    with more than 256 used symbols (where the `depth as u8` cast needs the optimality of the
-    merge order) are validated by the correspondence run, which evaluates exactly these clauses on
-    the real output. -/
+/-- **The property for every histogram with at most 256 used symbols** - both without and with
+    length limiting: for every frequency vector (any alphabet size within the code space, any
+    limit 1..15) with 2..256 used symbols, `build_huffman_tree` returns lengths that are 0 exactly
+    for the unused symbols, within 1..limit for the used ones, satisfy the Kraft equality, and
+    carry the specification's canonical bit-reversed code words; no index underflow in the limiting
+    loop or the reassignment, and the closing assert passes.  Proof: heap operations are
+    permutations (so the result does not depend on std's tie-breaking); the merge loop ends with one
+    tree over exactly the used symbols; clipping a tree's depths at the limit exceeds the code
+    space by at most (leaves at the limit level) − 1; each limiting move lowers the excess by one
+    and keeps that slack, so `counts[limit]` never underflows and an occupied level below the limit
+    always exists; the reassignment hands out exactly the level counts; phase 4. -/
+theorem full_upto_256 (freqs : List Nat) (limit : Nat) (h1 : 1 ≤ limit) (h15 : limit ≤ 15)
+    (h2 : 2 ≤ (freqs.filter (· > 0)).length) (h256 : (freqs.filter (· > 0)).length ≤ 256)
+    (hspace : freqs.length ≤ 2 ^ limit) :
+    ∃ lengths codes, build freqs limit = .built lengths codes ∧ lengths.size = freqs.length ∧
+      (∀ i, i < freqs.length → (freqs[i]! = 0 → lengths[i]! = 0) ∧ (freqs[i]! > 0 → 1 ≤ lengths[i]! ∧ lengths[i]! ≤ limit)) ∧
+      Prefix.kraft lengths.toList limit = 2 ^ limit ∧
+      (∀ i, i < freqs.length → lengths[i]! ≠ 0 →
+        some codes[i]! = (Prefix.canonicalCode lengths.toList i).map fun c => Prefix.reverseBits c lengths[i]!) :=
+  build_full freqs limit h1 h15 h2 h256 hspace
+
+-- the limiting case is exercised: a Fibonacci histogram at limit 3
+example : (treeLengths [1, 1, 2, 3, 5, 8, 13, 21]).foldl max 0 > 3 ∧ [1, 1, 2, 3, 5, 8, 13, 21].length ≤ 2 ^ 3 := by decide
+
+/-- The property at full strength (no bound on the number of used symbols): stated.  It is a
+    theorem up to 256 used symbols (`full_upto_256`); beyond that (only the 280+-symbol green
+    alphabet can get there) the `depth as u8` cast of the depth walk is exact only because a
+    Huffman tree over pixel counts below 2^32 is shallower than 256 - which needs the optimality
+    of the merge order (the heap really popping minima), not proved here; those histograms are
+    covered by the correspondence run. -/
 def full : Prop :=
   ∀ (freqs : List Nat) (limit : Nat), freqs.length ≤ 2 ^ limit → limit ≤ 15 → 1 ≤ limit → freqs.sum < 2 ^ 32 →
     2 ≤ (freqs.filter (· > 0)).length →
